@@ -318,7 +318,7 @@ def s_check():
                              st.builds(base, st.just([]), st.just([])))
 
         # 3. duplicate outpoints at a chosen pair of positions / same hash with a different index
-        def dup(ins, a, b, same_index, script):
+        def dup(ins, a, b, same_index, script, between=0):
             ins = [dict(i) for i in ins]
             if len(ins) < 2:
                 ins.append(dict(ins[0], script=script, index=(ins[0]["index"] + 7) & NULL_INDEX, prev="02" + ins[0]["prev"][2:]))
@@ -327,8 +327,15 @@ def s_check():
             ins[b]["prev"] = ins[a]["prev"]
             ins[b]["index"] = ins[a]["index"] if same_index else (ins[a]["index"] ^ 1)
             ins[b]["script"] = script
+            # optionally, inputs spending OTHER outputs of the same previous transaction stand between (and around) the two
+            lo, hi = min(a, b), max(a, b)
+            for t in range(between):
+                sib = dict(ins[a], index=(ins[a]["index"] + 2 + t) & NULL_INDEX, script=script)
+                ins.insert([hi, lo + 1, 0, len(ins)][(t + between) % 4] if t else hi, sib)
+                hi += 1
             return ins
-        c_dups = st.builds(base, st.builds(dup, ins_ok, st.integers(0, 5), st.integers(0, 5), st.booleans(), _small_script()), ok_outs)
+        c_dups = st.builds(base, st.builds(dup, ins_ok, st.integers(0, 5), st.integers(0, 5), st.booleans(), _small_script(),
+                                            st.sampled_from([0, 0, 1, 1, 2, 3])), ok_outs)
         c_many = st.builds(lambda n, d, o: base([txgen_xin_json(d % n)] if d is not None else [], o, xins=n),
                            st.sampled_from([2, 0xFC, 0xFD, 0xFE]), st.one_of(st.none(), st.integers(0, 300)), ok_outs)
 
